@@ -326,7 +326,57 @@ class History:
             rec = self._record(ev, tx)
             for m in self.monitors:
                 m(self, rec)
+        if self.profile.get("queries") and self.rng.random() < self.profile["queries"]:
+            self.random_queries()
         return tx
+
+    def random_queries(self):
+        """C17: random (start_after, limit, status) triples, id lists and users; model vs implementation,
+        and chained pages vs the unpaginated answer of the implementation itself"""
+        r = self.rng
+        nb = len(self.batches())
+        seqs = [p["sequence"] for p in self.inflight()]
+        qs = []
+        for _ in range(3):
+            qs.append({"batches": {"start_after": r.choice([None, 0, 1, 2, nb - 1, nb, nb + 5]),
+                                   "limit": r.choice([None, 0, 1, 2, 3, 10, 2 ** 32 - 1]),
+                                   "status": r.choice([None, None, "Pending", "Submitted", "Received"])}})
+        qs.append({"batches_by_ids": {"ids": [r.choice([0, 1, 2, 3, nb, nb + 1, 99]) for _ in range(r.randrange(0, 6))]}})
+        qs.append({"batch": {"id": r.choice([0, 1, nb, nb + 1])}})
+        qs.append({"ibc_queue": {"start_after": r.choice([None, 0] + seqs), "limit": r.choice([None, 0, 1, 2, 10])}})
+        qs.append({"ibc_reply_queue": {"start_after": None, "limit": r.choice([None, 1])}})
+        qs.append({"unstake_requests": {"user": r.choice(self._users())}})
+        for q in qs:
+            a = self.h.call({"op": "query", "msg": q})
+            self.stats.calls += 1
+            self.stats.signatures.add(("query", variant_of(q), outcome(a), json.dumps(q, sort_keys=True)[:80]))
+            if self.mode == "model":
+                b = self.d.call({"op": "query", "msg": q})
+                if outcome(a) != outcome(b) or (outcome(a) == "ok" and a["ok"] != b["ok"]):
+                    raise Divergence("query." + variant_of(q), {"query": q, "model": b, "impl": a})
+        # chained pages of the implementation against its own unpaginated answer
+        for status in (None, r.choice(["Pending", "Submitted", "Received"])):
+            limit = r.choice([1, 2, 3])
+            full = self.h.call({"op": "query", "msg": {"batches": {"start_after": None, "limit": None, "status": status}}})
+            if "ok" not in full:
+                continue
+            got = []
+            cursor = None
+            for _ in range(len(full["ok"]["batches"]) + 2):
+                pg = self.h.call({"op": "query", "msg": {"batches": {"start_after": cursor, "limit": limit, "status": status}}})
+                if "ok" not in pg or not pg["ok"]["batches"]:
+                    break
+                got += pg["ok"]["batches"]
+                cursor = pg["ok"]["batches"][-1]["id"]
+            if got != full["ok"]["batches"]:
+                self.findings.append({"property": "C17", "monitor": "pages_cover", "signature": {"status": status is not None},
+                                      "what": "chained pages (limit %d, status %s) differ from the unpaginated answer" % (limit, status),
+                                      "upto": len(self.events), "event": self.events[-1]})
+            ids = [b["id"] for b in got]
+            if ids != sorted(set(ids)):
+                self.findings.append({"property": "C17", "monitor": "pages_order", "signature": {},
+                                      "what": "pages not ascending / repeated ids %s" % ids, "upto": len(self.events),
+                                      "event": self.events[-1]})
 
     # ----- views of the model state -----
     def cstate(self):
